@@ -15,6 +15,7 @@ from . import core, gosrc, mockgen, c01, drvrun
 from .core import Verdict
 
 CHUNK = 14
+FOCUS_FEATURES = ("shape.alias-func-named-like-builtin",)
 
 
 def gen_cases(ctx):
@@ -45,6 +46,12 @@ def gen_cases(ctx):
                 cases.append({"kind": "catalogue", "inpkg": inpkg, "genseed": ctx.seed * 31 + inpkg, "idx": ch, "template": "matryer", "formatter": "goimports",
                               "placement": "inpkg-test" if inpkg else rng.choice(["outpkg", "xtest"]), "td": td, "gomod": "plain", "srckind": "ordinary",
                               "drvseed": rng.randrange(1, 1 << 20), "td_level": ["root", "iface", "recparent"][ci % 3], "golang": [None, "1.21", None, "1.20", None, "1.18"][ci % 6]})
+    # fixed witnesses (rule of DESIGN 10.9): catalogue features whose detection must not depend on the shuffle, without any option (a nil Func must panic)
+    for inpkg in (True, False):
+        g = gosrc.Gen(random.Random(ctx.seed * 31 + inpkg), inpkg_only=inpkg)
+        idx = [k for k, i in enumerate(gosrc.catalogue(g)) if i["feature"] in FOCUS_FEATURES]
+        cases.append({"kind": "catalogue", "inpkg": inpkg, "genseed": ctx.seed * 31 + inpkg, "idx": idx, "template": "matryer", "formatter": "goimports",
+                      "placement": "inpkg-test" if inpkg else "outpkg", "td": {}, "gomod": "plain", "srckind": "ordinary", "drvseed": 7, "td_level": "root"})
     # every option true at the top level and explicitly false (its default) on every second interface: an explicit default is a setting, not an absence
     for inpkg in ((True,) if ctx.tier == "quick" else (True, False)):
         for k in range(2 if ctx.tier == "quick" else 6):
